@@ -832,8 +832,21 @@ def np_flatnonzero(E, args, node):
 
 @libfn('numpy.where')
 def np_where(E, args, node):
+    if len(args.pos) == 3:
+        # elementwise selection (equal lengths, scalars broadcast)
+        c, a, b = args.pos
+        if not isinstance(c, Arr) or c.ty != BOOL or getattr(c, 'lead', None) is not None:
+            raise Unsupported('np.where(cond, a, b) with a non-array condition')
+        xr = any((isinstance(v, Arr) and v.ty == XR) or isinstance(v, X) for v in (a, b))
+
+        def pick(cv, av, bv):
+            av, bv = _norm_elem(av), _norm_elem(bv)
+            if xr:
+                av, bv = xops.to_x(av), xops.to_x(bv)
+            return E.ite(zbool(cv), av, bv)
+        return map_arr(E, [c, a, b], pick, node, kind='ndarray')
     if len(args.pos) != 1:
-        raise Unsupported('3-argument np.where')
+        raise Unsupported('2-argument np.where')
     return (nonzero_indices(E, args.pos[0], node),)
 
 
